@@ -103,12 +103,7 @@ func logClose(err error, pw *io.PipeWriter) {
 	}
 }
 
-func (r *request) buildHTTP(mediaType, basePath string, producers map[string]runtime.Producer, registry strfmt.Registry, auth runtime.ClientAuthInfoWriter) (*http.Request, error) { //nolint:gocyclo,maintidx
-	// build the data
-	if err := r.writer.WriteToRequest(r, registry); err != nil {
-		return nil, err
-	}
-
+func (r *request) buildHTTP(mediaType, basePath string, producers map[string]runtime.Producer, registry strfmt.Registry, auth runtime.ClientAuthInfoWriter) (req *http.Request, err error) { //nolint:gocyclo,maintidx
 	// Our body must be an io.Reader.
 	// When we create the http.Request, if we pass it a
 	// bytes.Buffer then it will wrap it in an io.ReadCloser
@@ -116,6 +111,31 @@ func (r *request) buildHTTP(mediaType, basePath string, producers map[string]run
 	var body io.Reader
 	var pr *io.PipeReader
 	var pw *io.PipeWriter
+	var writerStarted bool
+
+	// When the request cannot be built, nobody is going to read the body:
+	// release the files handed over for upload, and do not leave the
+	// multipart writer goroutine blocked on its pipe forever.
+	defer func() {
+		if err == nil {
+			return
+		}
+		if writerStarted {
+			// the writer goroutine fails on its next write and closes the files
+			_ = pr.CloseWithError(err)
+			return
+		}
+		for _, ff := range r.fileFields {
+			for _, ffi := range ff {
+				ffi.Close()
+			}
+		}
+	}()
+
+	// build the data
+	if err := r.writer.WriteToRequest(r, registry); err != nil {
+		return nil, err
+	}
 
 	r.buf = bytes.NewBuffer(nil)
 	if r.payload != nil || len(r.formFields) > 0 || len(r.fileFields) > 0 {
@@ -138,10 +158,19 @@ func (r *request) buildHTTP(mediaType, basePath string, producers map[string]run
 		mp := multipart.NewWriter(pw)
 		r.header.Set(runtime.HeaderContentType, mangleContentType(mediaType, mp.Boundary()))
 
+		writerStarted = true
 		go func() {
 			defer func() {
 				mp.Close()
 				pw.Close()
+			}()
+
+			defer func() {
+				for _, ff := range r.fileFields {
+					for _, ffi := range ff {
+						ffi.Close()
+					}
+				}
 			}()
 
 			for fn, v := range r.formFields {
@@ -153,13 +182,6 @@ func (r *request) buildHTTP(mediaType, basePath string, producers map[string]run
 				}
 			}
 
-			defer func() {
-				for _, ff := range r.fileFields {
-					for _, ffi := range ff {
-						ffi.Close()
-					}
-				}
-			}()
 			for fn, f := range r.fileFields {
 				for _, fi := range f {
 					var fileContentType string
@@ -325,7 +347,7 @@ DoneChoosingBodySource:
 		urlPath += "/"
 	}
 
-	req, err := http.NewRequestWithContext(context.Background(), r.method, urlPath, body)
+	req, err = http.NewRequestWithContext(context.Background(), r.method, urlPath, body)
 	if err != nil {
 		return nil, err
 	}
